@@ -6,6 +6,8 @@ execution are exactly the op lists quantified over here.
 import Otel.C15.Model
 import Otel.C15.Spec
 import Otel.C15.Lemmas
+import Otel.C15.LemmasLP
+import Otel.C15.LemmasMP
 namespace Otel.C15.Props
 open Otel.C15 Otel.C15.Lemmas
 
@@ -143,14 +145,210 @@ example : Spec.TP.check exKinds exOps (TP.run exKinds exOps) = Spec.Fails.none :
 example : ((TP.run exKinds exOps).map fun o => ((o.snap 0).e, (o.snap 0).s, (o.snap 2).n)).getLast? = some (3, 2, 2) := by
   decide
 
-/-! ### Stated, not proved (oracle-checked on every run) -/
+/-! ### Logger provider -/
 
-/-- logger provider: every op sequence with every resolution of the done-context races passes the reference -/
-def lp_lifecycle_statement : Prop :=
-  ∀ (kinds : List LP.LKind) (ops : List LP.Op), Spec.LP.check kinds ops (LP.run kinds ops) = Spec.Fails.none
+/-- Main theorem (logger provider): for every pool of log processors (recording, simple/batch around a recording
+or a nil exporter) and EVERY op sequence (Logger, Emit on any logger slot, ForceFlush/Shutdown with live or done
+contexts) with EVERY resolution `Choice` of the `select` races a done context opens in the batch processor (which
+calls report the context error, how many queued records the raced final drain still exports, whether the raced
+flush reaches the exporter), the model's run passes the whole reference oracle `Spec.LP.check`: all four clauses
+at once, no exclusion. The next three theorems are its projections. -/
+theorem lp_lifecycle (kinds : List LP.LKind) (ops : List LP.Op) :
+    Spec.LP.check kinds ops (LP.run kinds ops) = Spec.Fails.none := by
+  have := LemmasLP.checkFrom_none (kinds := kinds) ops (LP.init kinds) {} (LemmasLP.inv_init kinds)
+  have hs : LemmasLP.snapOf (LP.init kinds) = fun _ => {} := by
+    funext i; simp [LemmasLP.snapOf, LP.init]
+  rw [hs] at this
+  simp [Spec.LP.check, LP.run, this, LemmasLP.runFrom_length, Spec.Fails.or, Spec.Fails.none]
 
-/-- meter provider: same -/
-def mp_lifecycle_statement : Prop :=
-  ∀ (kinds : List MP.RKind) (ops : List MP.Op), Spec.MP.check kinds ops (MP.run kinds ops) = Spec.Fails.none
+/-- Clause "further telemetry … nothing more is exported" (logger provider): at every step a recording processor
+has seen exactly the records emitted through SDK loggers before Shutdown, a simple processor's exporter has
+received exactly those, a batch processor's exporter exactly those at every (live or raced) ForceFlush and at a
+live Shutdown, never more, and nothing moves at any other step — in particular nothing after Shutdown. -/
+theorem lp_export_exact (kinds : List LP.LKind) (ops : List LP.Op) :
+    (Spec.LP.check kinds ops (LP.run kinds ops)).m = false := by
+  rw [lp_lifecycle kinds ops]; rfl
+
+/-- Clause "each processor and exporter is shut down exactly once however often Shutdown is called" (logger
+provider): at every step of every op sequence every recording processor / exporter has seen exactly one Shutdown
+iff the provider's Shutdown has been called, never two — also when the first Shutdown got a done context and the
+batch processor's final flush was cut short. -/
+theorem lp_shutdown_once (kinds : List LP.LKind) (ops : List LP.Op) :
+    (Spec.LP.check kinds ops (LP.run kinds ops)).o = false := by
+  rw [lp_lifecycle kinds ops]; rfl
+
+/-- Clause "after Shutdown the provider hands out no-op loggers, flush and shutdown are harmless no-ops returning
+nil" (logger provider): every Logger/Emit/ForceFlush/Shutdown result is the reference's (after Shutdown: no-op
+logger, nil; before: nil, or the context's own error only if the context was done and a batch processor is
+present) and no ForceFlush reaches a processor or exporter after Shutdown. -/
+theorem lp_after_shutdown_noop (kinds : List LP.LKind) (ops : List LP.Op) :
+    (Spec.LP.check kinds ops (LP.run kinds ops)).a = false := by
+  rw [lp_lifecycle kinds ops]; rfl
+
+/-- Reference-free form of "after Shutdown … harmless no-ops … nothing more is exported" (logger provider):
+whatever happened before (`pre`), whatever context the Shutdown got and however its races resolved, every later call
+answers `LemmasLP.resAfter` (Logger: a no-op logger, Emit: nothing, ForceFlush and Shutdown: nil) and leaves every
+counter of every processor and exporter exactly as the Shutdown call left it. -/
+theorem lp_silent_after_shutdown (kinds : List LP.LKind) (pre post : List LP.Op) (c : Ctx) (ch : Choice) :
+    ∃ sd, (LP.run kinds (pre ++ .shutdown c ch :: post))[pre.length]? = some sd ∧
+      ((LP.run kinds (pre ++ .shutdown c ch :: post)).drop (pre.length + 1)).map (·.res) =
+        post.map LemmasLP.resAfter ∧
+      ∀ o ∈ (LP.run kinds (pre ++ .shutdown c ch :: post)).drop (pre.length + 1), o.snap = sd.snap := by
+  have hlen := LemmasLP.runFrom_length (LP.init kinds) pre
+  obtain ⟨h1, h2⟩ := LemmasLP.stopped_run post _
+    (LemmasLP.shutdown_stops (LemmasLP.finalFrom (LP.init kinds) pre) c ch)
+  have hdrop : (LP.run kinds (pre ++ .shutdown c ch :: post)).drop (pre.length + 1) =
+      LP.runFrom (LP.step (LemmasLP.finalFrom (LP.init kinds) pre) (.shutdown c ch)).1 post := by
+    rw [LP.run, LemmasLP.runFrom_append, ← hlen, List.drop_append]
+    simp [LP.runFrom]
+  refine ⟨{ res := (LP.step (LemmasLP.finalFrom (LP.init kinds) pre) (.shutdown c ch)).2,
+            snap := LemmasLP.snapOf (LP.step (LemmasLP.finalFrom (LP.init kinds) pre) (.shutdown c ch)).1 },
+    ?_, ?_, ?_⟩
+  · rw [LP.run, LemmasLP.runFrom_append, List.getElem?_append_right (by omega), hlen]
+    simp only [Nat.sub_self, LP.runFrom, List.getElem?_cons_zero]
+    rfl
+  · rw [hdrop]; exact h1
+  · rw [hdrop]; intro o ho; exact h2 o ho
+
+/-! ### Meter provider -/
+
+/-- Main theorem (meter provider): for every pool of readers (manual, periodic around a recording exporter) and
+EVERY op sequence (Meter, Add on any meter slot, Collect on any reader, ForceFlush/Shutdown with live or done
+contexts) with EVERY resolution `Choice` of the `select` races of `PeriodicReader.ForceFlush` on a done context,
+the model's run passes the whole reference oracle `Spec.MP.check`: all four clauses at once, no exclusion. -/
+theorem mp_lifecycle (kinds : List MP.RKind) (ops : List MP.Op) :
+    Spec.MP.check kinds ops (MP.run kinds ops) = Spec.Fails.none := by
+  have := LemmasMP.checkFrom_none (kinds := kinds) ops (MP.init kinds) {} (LemmasMP.inv_init kinds)
+  have hs : LemmasMP.snapOf (MP.init kinds) = fun _ => {} := by
+    funext i; simp [LemmasMP.snapOf, MP.init]
+  rw [hs] at this
+  simp [Spec.MP.check, MP.run, this, LemmasMP.runFrom_length, Spec.Fails.or, Spec.Fails.none]
+
+/-- Clause "nothing more is exported" (meter provider): a periodic reader's exporter sees exactly one Export per
+live ForceFlush before Shutdown and one at the first Shutdown, at most one per raced (done-context) ForceFlush, and
+none at any other step — in particular none after Shutdown; a manual reader never exports. -/
+theorem mp_export_exact (kinds : List MP.RKind) (ops : List MP.Op) :
+    (Spec.MP.check kinds ops (MP.run kinds ops)).m = false := by
+  rw [mp_lifecycle kinds ops]; rfl
+
+/-- Clause "each reader and exporter is shut down exactly once however often Shutdown is called" (meter
+provider): at every step every periodic reader's exporter has seen exactly one Shutdown iff the provider's
+Shutdown has been called, never two. -/
+theorem mp_shutdown_once (kinds : List MP.RKind) (ops : List MP.Op) :
+    (Spec.MP.check kinds ops (MP.run kinds ops)).o = false := by
+  rw [mp_lifecycle kinds ops]; rfl
+
+/-- Clause "after Shutdown the provider hands out no-op meters, further calls are harmless no-ops or return the
+documented shutdown error" (meter provider): after Shutdown Meter yields a no-op meter, Collect and a second
+Shutdown answer ErrReaderShutdown, ForceFlush answers nil (no periodic reader) or ErrReaderShutdown (possibly
+joined with / replaced by the error of a done context), and the exporter's ForceFlush is never reached; before
+Shutdown Collect returns the exact total and ForceFlush nil or the done context's own error. -/
+theorem mp_after_shutdown_noop (kinds : List MP.RKind) (ops : List MP.Op) :
+    (Spec.MP.check kinds ops (MP.run kinds ops)).a = false := by
+  rw [mp_lifecycle kinds ops]; rfl
+
+/-- Reference-free form of "after Shutdown … nothing more is exported" (meter provider): whatever happened before
+(`pre`) and whatever context the Shutdown got, no later call — Meter, Add, Collect, ForceFlush with any context and
+any resolution of its races, Shutdown — moves any counter of any reader's exporter (no Export, ForceFlush, Shutdown),
+and Meter / Add / Collect / Shutdown answer `LemmasMP.resAfter`: a no-op meter, nothing, the documented
+ErrReaderShutdown (Collect on a reader of the pool, second Shutdown). ForceFlush's result: `mp_after_shutdown_noop`. -/
+theorem mp_silent_after_shutdown (kinds : List MP.RKind) (pre post : List MP.Op) (c : Ctx) :
+    ∃ sd, (MP.run kinds (pre ++ .shutdown c :: post))[pre.length]? = some sd ∧
+      (∀ o ∈ (MP.run kinds (pre ++ .shutdown c :: post)).drop (pre.length + 1), o.snap = sd.snap) ∧
+      ∀ p ∈ post.zip ((MP.run kinds (pre ++ .shutdown c :: post)).drop (pre.length + 1)),
+        ∀ res, LemmasMP.resAfter kinds.length p.1 = some res → p.2.res = res := by
+  have hlen := LemmasMP.runFrom_length (MP.init kinds) pre
+  have hinv := LemmasMP.inv0_step _ (.shutdown c) (LemmasMP.inv0_final pre _ (LemmasMP.inv0_init kinds))
+  have honce := LemmasMP.shutdown_once_set (LemmasMP.finalFrom (MP.init kinds) pre) c
+  obtain ⟨h1, h2⟩ := LemmasMP.sealed_run post _ honce (hinv honce)
+  have hn : (MP.step (LemmasMP.finalFrom (MP.init kinds) pre) (.shutdown c)).1.n = kinds.length := by
+    rw [LemmasMP.step_n]
+    have : ∀ (ops : List MP.Op) (s : MP.St), (LemmasMP.finalFrom s ops).n = s.n := by
+      intro ops
+      induction ops with
+      | nil => intro s; rfl
+      | cons op rest ih => intro s; simp only [LemmasMP.finalFrom]; rw [ih, LemmasMP.step_n]
+    rw [this]; rfl
+  rw [hn] at h2
+  have hdrop : (MP.run kinds (pre ++ .shutdown c :: post)).drop (pre.length + 1) =
+      MP.runFrom (MP.step (LemmasMP.finalFrom (MP.init kinds) pre) (.shutdown c)).1 post := by
+    rw [MP.run, LemmasMP.runFrom_append, ← hlen, List.drop_append]
+    simp [MP.runFrom]
+  refine ⟨{ res := (MP.step (LemmasMP.finalFrom (MP.init kinds) pre) (.shutdown c)).2,
+            snap := LemmasMP.snapOf (MP.step (LemmasMP.finalFrom (MP.init kinds) pre) (.shutdown c)).1 },
+    ?_, ?_, ?_⟩
+  · rw [MP.run, LemmasMP.runFrom_append, List.getElem?_append_right (by omega), hlen]
+    simp only [Nat.sub_self, MP.runFrom, List.getElem?_cons_zero]
+    rfl
+  · rw [hdrop]; intro o ho; exact h1 o ho
+  · rw [hdrop]; exact h2
+
+/-- All three providers at once: every op sequence (= every interleaving at method granularity) over every
+component pool passes its reference oracle — the trace provider outside known finding F26, the logger and meter
+providers unconditionally and for every resolution of the done-context races. -/
+theorem lifecycle_all_providers :
+    (∀ (kinds : List TP.PKind) (ops : List TP.Op), ¬ Spec.TP.F26_applies ops →
+      Spec.TP.check kinds ops (TP.run kinds ops) = Spec.Fails.none) ∧
+    (∀ (kinds : List LP.LKind) (ops : List LP.Op), Spec.LP.check kinds ops (LP.run kinds ops) = Spec.Fails.none) ∧
+    (∀ (kinds : List MP.RKind) (ops : List MP.Op), Spec.MP.check kinds ops (MP.run kinds ops) = Spec.Fails.none) :=
+  ⟨tp_lifecycle_partial, lp_lifecycle, mp_lifecycle⟩
+
+/-! ### Non-vacuity (logger and meter provider) -/
+
+/-- every race lost: the raced calls report the context error, nothing more is exported -/
+def chLose : Choice := { e := fun _ => true, k := fun _ => 0 }
+/-- every race won: nil, one queued record still exported / exporter reached -/
+def chWin : Choice := { e := fun _ => false, k := fun _ => 1 }
+
+/-- all five processor kinds; emits before/after a raced ForceFlush, a first Shutdown with an expired context whose
+final drain is cut short after one record, then emits on an old SDK logger, a new (no-op) logger, flush, shutdown -/
+def exLKinds : List LP.LKind := [.recd, .simpleRec, .batchRec, .batchNil, .simpleNil]
+def exLOps : List LP.Op :=
+  [.logger 0, .emit 0, .emit 1, .flush .cancelled chLose, .emit 0, .flush .bg chWin, .emit 0, .emit 0,
+   .flush .cancelled chWin, .emit 0, .emit 0, .shutdown .expired chWin, .emit 0, .logger 1, .emit 1,
+   .flush .bg chLose, .shutdown .cancelled chLose, .flush .expired chLose]
+
+example : Spec.LP.check exLKinds exLOps (LP.run exLKinds exLOps) = Spec.Fails.none := by decide
+example : (LP.run exLKinds exLOps).map (·.res) =
+    [.sdk, .none, .none, .err true false false, .none, .ok, .none, .none, .ok, .none, .none, .ok, .none, .noop,
+     .none, .ok, .ok, .ok] := by decide
+/-- recording processor: 6 records, 3 flushes, 1 shutdown; batch exporter: 5 of the 6 records (one lost in the
+raced final drain), 2 flushes reached it (the lost race did not), 1 shutdown -/
+example : ((LP.run exLKinds exLOps).map fun o => ((o.snap 0).e, (o.snap 0).f, (o.snap 0).s, (o.snap 2).n,
+    (o.snap 2).f, (o.snap 2).s)).getLast? = some (6, 3, 1, 5, 2, 1) := by decide
+/-- instance of `lp_silent_after_shutdown` (the Shutdown is op 11): results of the six later calls, counters frozen -/
+example : ((LP.run exLKinds exLOps).drop 12).map (fun o => (o.res, (o.snap 0).e, (o.snap 1).n, (o.snap 2).n, (o.snap 2).s)) =
+    [(.none, 6, 6, 5, 1), (.noop, 6, 6, 5, 1), (.none, 6, 6, 5, 1), (.ok, 6, 6, 5, 1), (.ok, 6, 6, 5, 1),
+     (.ok, 6, 6, 5, 1)] := by decide
+/-- the oracle is not vacuous: an observation in which the exporter is shut down a second time fails clause `o` -/
+example : (Spec.LP.check [.simpleRec] [.shutdown .bg chWin, .shutdown .bg chWin]
+    [{ res := .ok, snap := fun _ => { s := 1 } }, { res := .ok, snap := fun _ => { s := 2 } }]).o = true := by decide
+
+/-- manual + two periodic readers; adds, collects, live and raced flushes (code 0 nothing / 1 export then ctx error /
+3 export + exporter flush), two Shutdowns, then everything again -/
+def chK (k : Nat) : Choice := { k := fun _ => k }
+def exRKinds : List MP.RKind := [.manual, .periodic, .periodic]
+def exROps : List MP.Op :=
+  [.meter 0, .add 0, .add 0, .collect 0, .flush .bg (chK 0), .flush .cancelled (chK 0), .flush .expired (chK 1),
+   .flush .cancelled (chK 3), .add 1, .collect 1, .shutdown .cancelled, .collect 0, .meter 1, .add 1, .add 0,
+   .flush .bg (chK 0), .flush .cancelled (chK 1), .flush .expired { k := fun i => i }, .shutdown .bg, .collect 2,
+   .collect 7]
+
+example : Spec.MP.check exRKinds exROps (MP.run exRKinds exROps) = Spec.Fails.none := by decide
+example : (MP.run exRKinds exROps).map (·.res) =
+    [.sdk, .none, .none, .val 2, .ok, .err true false false, .err false true false, .ok, .none, .val 2, .ok,
+     .err false false true, .noop, .none, .none, .err false false true, .err true false false,
+     .err false true true, .err false false true, .err false false true, .none] := by decide
+/-- periodic reader 1's exporter: 4 Exports (live flush, two raced flushes, Shutdown), 2 ForceFlushes, 1 Shutdown -/
+example : ((MP.run exRKinds exROps).map fun o => ((o.snap 1).n, (o.snap 1).f, (o.snap 1).s, (o.snap 0).n)).getLast? =
+    some (4, 2, 1, 0) := by decide
+/-- instance of `mp_silent_after_shutdown` (the first Shutdown is op 10): exporter counters (n, f, s) of both periodic
+readers frozen over the ten later calls -/
+example : ((MP.run exRKinds exROps).drop 10).map (fun o => ((o.snap 1).n, (o.snap 1).f, (o.snap 1).s, (o.snap 2).n)) =
+    List.replicate 11 (4, 2, 1, 4) := by decide
+/-- the oracle is not vacuous: an Export observed after Shutdown fails clause `m` -/
+example : (Spec.MP.check [.periodic] [.shutdown .bg, .flush .bg (chK 0)]
+    [{ res := .ok, snap := fun _ => { n := 1, s := 1 } },
+     { res := .err false false true, snap := fun _ => { n := 2, s := 1 } }]).m = true := by decide
 
 end Otel.C15.Props
